@@ -1004,6 +1004,13 @@ func linDepth(v ssa.Value, sym func(ssa.Value) string, d int) lin {
 			return lin{terms: map[string]int64{}, c: 0}
 		}
 	}
+	// a value the caller's symbol function names explicitly is an atom even if it is itself an
+	// arithmetic expression (the index of a range loop is `phi + 1` in SSA)
+	if _, isBin := v.(*ssa.BinOp); isBin {
+		if name := sym(v); name != pathOf(v) {
+			return lin{terms: map[string]int64{name: 1}}
+		}
+	}
 	if d < 32 {
 		switch x := v.(type) {
 		case *ssa.Convert:
